@@ -103,6 +103,10 @@ def base_objective(o, n):
         a = arr(o["a"])
         c = arr(o["c"])
         return lambda x: float(np.sum(np.sin(a * x)) + 0.5 * (x - c) @ (x - c))
+    if kind == "xscaled":
+        inner = base_objective(o["base"], n)
+        sc = float(o["s"])
+        return lambda x: inner(x / sc)
     if kind == "plateau":
         c = arr(o["c"])
         r = float(o["r"])
@@ -137,6 +141,10 @@ def base_component(comp, n):
         inner = base_component(comp["base"], n)
         add = float(comp["add"])
         return lambda x: inner(x) + add
+    if kind == "xscaled":
+        inner = base_component(comp["base"], n)
+        sc = float(comp["s"])
+        return lambda x: inner(x / sc)
     raise ValueError(kind)
 
 
